@@ -43,6 +43,19 @@ def dejson(j):
     raise ValueError(t)
 
 
+def content_bytes(c):
+    """File content of an op: a list of byte values, or a compact descriptor
+    {"gen": [size, seed], "patch": [[offset, delta], ...]} = a seed-dependent periodic pattern with single bytes changed."""
+    if isinstance(c, dict):
+        size, seed = c["gen"]
+        pat = bytes((seed * 7 + j * 13) % 256 for j in range(256))
+        data = bytearray((pat * (size // 256 + 1))[:size])
+        for off, delta in c.get("patch", []):
+            data[off] = (data[off] + 1 + delta % 255) % 256
+        return bytes(data)
+    return bytes(c)
+
+
 def _f():  # a task function with retrievable source
     pass
 
@@ -138,7 +151,7 @@ def mode_ops(req):
         o = op["op"]
         if o == "write":
             p = root / fname(op["f"])
-            p.write_bytes(bytes(op["content"]))
+            p.write_bytes(content_bytes(op["content"]))
             os.utime(p, ns=(op["mtime_ns"], op["mtime_ns"]))
         elif o == "utime":
             os.utime(root / fname(op["f"]), ns=(op["mtime_ns"], op["mtime_ns"]))
